@@ -474,6 +474,80 @@ func c09Units(tier string) []hx.Unit {
 			units = append(units, u)
 		}
 	}
+	// two beacon nodes ask for the bid at the same time (no auction was held before: the first request runs one,
+	// the second waits for it): both are answered with the auction's winner, or with nothing when there is none
+	for _, defect := range []string{"none", "belowmin"} {
+		defect := defect
+		e := &c09Env{}
+		st := c09Strats()[0]
+		var got [2]int64
+		var errs [2]error
+		var fin int
+		u := hx.Unit{Name: "C09/blockrelay-cache/two-bid-requests/" + defect, Cfg: mc.Config{Deviation: true, Horizon: int64(400 * time.Second)}, Bound: 1}
+		if tier == "thorough" {
+			u.Bound = 2
+		}
+		u.Body = func() {
+			c09Init()
+			*e = c09Env{cfgKind: "none", given: make([][]c09Given, 1)}
+			got, errs, fin = [2]int64{}, [2]error{}, 0
+			util.VerifResetBuilderClients()
+			r := &c09Relay{idx: 0, env: e, value: 10, bldr: 'Y', hdr: 1, defect: defect}
+			e.relays = append(e.relays, r)
+			util.VerifSetBuilderClient(r.Address(), r)
+			mc.Sleep(int64(time.Duration(c09Slot)*12*time.Second) - mc.Now())
+			ctx, cancel := mcontext.WithCancel(context.Background())
+			defer cancel()
+			v1 := newAccount("W", "v1", 1)
+			accts := &accountsTable{byIndex: map[phase0.ValidatorIndex]*hAccount{1: v1}}
+			svc := c09NewBlockRelay(ctx, e, &st, "none", accts)
+			done := make(chan struct{}, 2)
+			for i := 0; i < 2; i++ {
+				i := i
+				mc.Go(func() {
+					b, err := svc.BuilderBid(ctx, c09Slot, phase0.Hash32{9}, v1.pubkey())
+					errs[i] = err
+					got[i] = -1
+					if b != nil {
+						got[i] = -2
+						if val, err := b.Value(); err == nil {
+							got[i] = c09Eth(val.ToBig())
+						}
+					}
+					fin++
+					mc.Send(done, struct{}{})
+				})
+			}
+			mc.Recv(done)
+			mc.Recv(done)
+			e.done = true
+		}
+		u.Check = func(r *mc.Result) mc.Verdict {
+			v := mc.Verdict{Outcome: fmt.Sprintf("two-bid-requests/%s %v", defect, got), Nontrivial: true, Sample: fmt.Sprintf("two simultaneous bid requests, relay bid %s: served %v (ETH; -1 = nothing)", defect, got)}
+			switch {
+			case r.Panic != "":
+				v.Violation, v.Key = v.Sample+": panic: "+firstLine(r.Panic), "C09/blockrelay/panic"
+			case !e.done:
+				v.Violation, v.Key = v.Sample+": a bid request never returned", "C09/blockrelay/never-returned"
+			}
+			want := int64(-1)
+			if defect == "none" {
+				want = 10
+			}
+			for i := 0; i < 2 && v.Violation == ""; i++ {
+				switch {
+				case want == -1 && got[i] != -1:
+					v.Violation, v.Key = fmt.Sprintf("%s: request %d was served a bid (value %d ETH) although the auction had no winner", v.Sample, i+1, got[i]), "C09/blockrelay/bid-served-without-winner"
+				case want != -1 && got[i] == -1:
+					v.Violation, v.Key = fmt.Sprintf("%s: request %d was served nothing although the auction has a winner", v.Sample, i+1), "C09/blockrelay/winning-bid-not-served"
+				case want != got[i]:
+					v.Violation, v.Key = fmt.Sprintf("%s: request %d was served a bid of %d ETH, the winner is worth %d", v.Sample, i+1, got[i], want), "C09/blockrelay/served-bid-differs"
+				}
+			}
+			return v
+		}
+		units = append(units, u)
+	}
 	// the same slot and proposer under two parents (a reorg): what is served for a parent is the result of an
 	// auction held for that parent, whatever was auctioned or served for the other one before
 	{
@@ -772,7 +846,7 @@ func init() {
 		Title: "The relay auction selects the best eligible bid and only eligible bids",
 		Rule: "for the single-shot (best) and the repeated-until-deadline strategy and n = 1..2 (thorough 3) scripted relays: every assignment per relay of one eligibility defect or none (below relay minimum, zero value, zero fee recipient, wrong timestamp, bad signature with known key, bad signature with unknown key, error, empty response) x value x builder x payload header x latency (0, <soft, between, never) (x per-attempt value step for the deadline strategy) x 6 builder configurations (offset +/-, factor 0/50/200), with real BLS signatures; explored with deviation-bounded schedules; plus the block relay's AuctionBlock -> BuilderBid cache path; " +
 			"quick restricts latencies/values/builder configurations, thorough uses the full alphabet; " +
-			"oracle: winner = arg-max eligible score among bids handed over before the observed return, listed providers offered the winning payload and include the winner's relay, no eligible bid => no winner and nothing served; the one-shot strategy returns without a winner only when no eligible bid arrives before its timeout; the block relay's bid cache under a reorg: every sequence of 3 (thorough 4) operations over {auction, serve} x {parent 1, parent 2} for one slot and proposer, the relay's bid depending on the parent: what is served for a parent is the winner of an auction for that parent; non-trivial = more than one relay or a defective single relay; distinct = distinct (strategy, winning score, return second)",
+			"oracle: winner = arg-max eligible score among bids handed over before the observed return, listed providers offered the winning payload and include the winner's relay, no eligible bid => no winner and nothing served; the one-shot strategy returns without a winner only when no eligible bid arrives before its timeout; two bid requests at the same time without a prior auction (one deviation; thorough two) are both served the winner, or nothing; the block relay's bid cache under a reorg: every sequence of 3 (thorough 4) operations over {auction, serve} x {parent 1, parent 2} for one slot and proposer, the relay's bid depending on the parent: what is served for a parent is the winner of an auction for that parent; non-trivial = more than one relay or a defective single relay; distinct = distinct (strategy, winning score, return second)",
 		Assumptions: []string{
 			"relays honour request cancellation",
 			"score = (value + offset) * factor / 100 with integer division, as documented for builder configurations",
